@@ -20,14 +20,18 @@ LEVEL = "proof"
 RULE = ("pairs of finite diagrams from one PRNG: sizes 0,1,2,.. (0-8 quick, up to 40 thorough), coordinates from "
         "lattice/half/dyadic (float arithmetic exact) and decimal/uniform modes, pair scales 2^-20,1,2^20 and the "
         "non-dyadic 0.1, 1/3; duplicates inside a diagram, points shared between the two diagrams, diagonal points, "
-        "empty sides; both functions with and without matching=True; non-trivial = both sides non-empty and at "
+        "empty sides; each pair handed over in one representation that holds its numbers unchanged (float64 array, list, tuple; float32, "
+        "int64/int32/int16/int8/uint8 arrays, Python-int lists where the coordinates allow); both functions with and without matching=True; non-trivial = both sides non-empty and at "
         "least 3 points in total; distinct by digest of (fn, diagrams)")
 ASSUMPTIONS = [
     "diagrams are finite with birth <= death (non-finite deaths are filtered before the anchored code: C01/C02 `inf_dropped`)",
     "bottleneck: on lattice/half/dyadic inputs numpy's |a-b|, maximum and 0.5*(d-b) are exact, so third entries are compared "
-    "with == at Rat there and within 1e-9*scale elsewhere; the aggregate max(rows) == distance is exact on every input",
-    "wasserstein: third entries within 1e-9*scale of sqrt(dx^2+dy^2) resp. (d-b)/sqrt2 (sklearn's expanded Euclidean formula, "
-    "rotation by cos/sin(pi/4)); |sum(rows) - distance| <= 1e-9*scale*(rows+1)",
+    "with == at Rat there and within 1e-9*scale elsewhere (scale = largest |coordinate|, not floored at 1); the aggregate max(rows) == distance is exact on every input",
+    "wasserstein: third entries within 1e-9*scale of sqrt(dx^2+dy^2) resp. (d-b)/sqrt2 (np.sqrt of the summed squared coordinate "
+    "differences since /repo fix 6c9bac1, rotation by cos/sin(pi/4)); |sum(rows) - distance| <= 1e-9*scale*(rows+1); scale = largest "
+    "|coordinate|, not floored at 1",
+    "both functions convert their inputs with dtype=float (/repo fixes 82ac8af, dcbfa71): arguments are handed over as float64/float32/"
+    "integer arrays (int64..uint8 where the coordinates allow), lists, tuples and Python-int lists; checker and models are dtype-free",
     "that the reported distance is the specification value (minimum over all partial matchings) is C01/C02; here it is "
     "re-confirmed exhaustively for M+N <= 8 only",
 ]
@@ -35,6 +39,21 @@ TRUSTED = ["C01/C02 for `reported distance = minimum over all partial matchings`
            "the external solvers are NOT trusted by this check: whatever matching they select, the rows built from it are validated per call"]
 EXACT_MODES = ("lattice", "half", "dyadic")
 FILES = ["persim/bottleneck.py", "persim/wasserstein.py"]
+# the theorems that carry clauses of the property statement.  NOT among them: the two `matching_flag_irrelevant_*`
+# theorems (true by `rfl`: they restate how the model's return value is built — the clause "same distance with and
+# without the flag" is [T] on the real code plus C01's `matching_flag_value`), the steps of the proofs, the cost-rule
+# identifications and the concrete `decide` instances.
+CORE_THEOREMS = ["PersimVerif.C06.checkRows_sound_bn",               # accepted rows ARE a partial matching, every point once, max = distance
+                 "PersimVerif.C06.checkRows_sound_ws",               # … sum = distance
+                 "PersimVerif.C06.bn_rows_certify",                  # the bottleneck extraction loop on ANY perfect matching at the least feasible threshold is accepted
+                 "PersimVerif.C06.ws_rows_certify",                  # the Wasserstein extraction loop on ANY finite assignment is accepted, sum = selected entries
+                 "PersimVerif.C06.empty_as_origin",                  # an empty side is index 0 of the one-point diagram (0,0)
+                 "PersimVerif.C06.bottleneck_matching_certifies",    # at the reals with (L-inf, (d-b)/2): rows certify, and are an optimal matching
+                 "PersimVerif.C06.wasserstein_matching_certifies",   # at the reals with (Euclid, (d-b)/sqrt 2)
+                 "PersimVerif.C06.modelBnRowsCertify",               # C06Model: the property for the MODEL of persim.bottleneck (composition with C01)
+                 "PersimVerif.C06.modelWsRowsCertify",               # C06Model: … for the MODEL of persim.wasserstein (composition with C02)
+                 "PersimVerif.C06.model_rows_independent_of_oracle_value",   # certified value independent of the oracle (hash seed)
+                 "PersimVerif.C06.model_rows_independent_of_solver_value"]
 PROP_FILES = ["PersimVerif/Props/C06.lean"]
 PROP_FILES += ["PersimVerif/Props/C06Model.lean"]
 
@@ -71,12 +90,50 @@ def gen_pair(ctx, nmax):
     return A_, B_, mode, exact
 
 
-def arr(d):
-    return np.array(d, dtype=float).reshape(-1, 2)
+INT_REPS = {"int64": (-2 ** 52, 2 ** 52), "int32": (-2 ** 31, 2 ** 31 - 1), "int16": (-2 ** 15, 2 ** 15 - 1),
+            "int8": (-128, 127), "uint8": (0, 255), "pyint": (-2 ** 52, 2 ** 52)}
+REPS = ("array", "list", "tuple", "float32") + tuple(INT_REPS)
+
+
+def rep_ok(d, rep):
+    """can `d` be handed over in representation `rep` without changing any number?"""
+    if rep in ("array", "list", "tuple"):
+        return True
+    xs = [x for p in d for x in p]
+    if rep == "float32":
+        return all(float(np.float32(x)) == x for x in xs)
+    lo, hi = INT_REPS[rep]
+    return all(x == math.floor(x) and lo <= x <= hi for x in xs)
+
+
+def arr(d, rep="array"):
+    """the argument handed to the real function (the checker and the models never see the representation)"""
+    if not rep or not rep_ok(d, rep):
+        rep = "array"
+    if rep == "list":
+        return [[float(x) for x in p] for p in d]
+    if rep == "tuple":
+        return tuple(tuple(float(x) for x in p) for p in d)
+    if rep == "pyint":
+        return [[int(x) for x in p] for p in d]
+    a = np.array(d, dtype=float).reshape(-1, 2)
+    return a if rep == "array" else a.astype(getattr(np, rep))
+
+
+def pick_rep(ctx, A_, B_):
+    """one representation for both arguments (the same dtype on both sides: no promotion to a wider one)"""
+    r = ctx.rng
+    ok = [rp for rp in REPS if rep_ok(A_, rp) and rep_ok(B_, rp)]
+    narrow = [rp for rp in ok if rp not in ("array", "list", "tuple")]
+    if narrow and r.random() < 0.5:
+        return r.choice(narrow)
+    return r.choice(["array", "array", "list", "tuple"])
 
 
 def scale_of(A_, B_):
-    return max(1.0, common.maxabs(A_), common.maxabs(B_))
+    """largest |coordinate|, NOT floored at 1 (a floor makes small-scale inexact cases 1e-4-relative); 1e-300 only keeps
+    the all-zero case away from a zero tolerance"""
+    return max(1e-300, common.maxabs(A_), common.maxabs(B_))
 
 
 # ----------------------------------------------------------------------------- the real code
@@ -140,7 +197,7 @@ class Capture:
         return [int(j) for j in mj]
 
 
-def run_real(fn, A_, B_, cap=None):
+def run_real(fn, A_, B_, cap=None, rep="array"):
     """returns dict(plain, dist, rows, sigma) or dict(error=...)"""
     mod = common.pm("bottleneck" if fn == "bn" else "wasserstein")
     f = mod.bottleneck if fn == "bn" else mod.wasserstein
@@ -148,10 +205,10 @@ def run_real(fn, A_, B_, cap=None):
     with warnings.catch_warnings():
         warnings.simplefilter("ignore")
         try:
-            out["plain"] = f(arr(A_), arr(B_))
+            out["plain"] = f(arr(A_, rep), arr(B_, rep))
             if cap is not None:
                 cap.hk_results, cap.lsa_results = [], []
-            res = f(arr(A_), arr(B_), matching=True)
+            res = f(arr(A_, rep), arr(B_, rep), matching=True)
         except Exception as e:  # the property says a matching is returned for every pair of finite diagrams
             return {"error": "%s: %s" % (type(e).__name__, e)}
     try:
@@ -268,8 +325,9 @@ def exhaustive_opt(fn, A_, B_, exact):
 # ----------------------------------------------------------------------------- one case = real call + checks
 
 class Case:
-    def __init__(self, fn, A_, B_, exact, mode="?", hashseed=None):
+    def __init__(self, fn, A_, B_, exact, mode="?", hashseed=None, rep="array"):
         self.fn, self.A, self.B, self.exact, self.mode, self.hashseed = fn, A_, B_, exact, mode, hashseed
+        self.rep = rep
         self.scale = scale_of(A_, B_)
         self.res = None
         self.problems = []       # statement failures found on the real code (each is a failing input)
@@ -279,6 +337,8 @@ class Case:
 
     def desc(self):
         d = {"fn": self.fn, "A": self.A, "B": self.B, "exact": self.exact}
+        if self.rep != "array":
+            d["rep"] = self.rep
         if self.hashseed is not None:
             d["hashseed"] = self.hashseed
         return d
@@ -494,6 +554,7 @@ CORPUS = [
 
 def run(ctx):
     r = ctx.rng
+    ctx.extra["core_theorems"] = CORE_THEOREMS
     ctx.extra["source_digest"] = {"bottleneck": common.source_digest(FILES[0], ["bottleneck"]),
                                   "wasserstein": common.source_digest(FILES[1], ["wasserstein"])}
     plan = [(8, ctx.n(260, 6000))]
@@ -511,13 +572,15 @@ def run(ctx):
         batch = []
         cov = common.LineCov(FILES)
         for idx, (a, b, e, mode) in enumerate(pairs):
+            rep = pick_rep(ctx, a, b)
+            ctx.count("rep:" + rep)
             for fn in ("bn", "ws"):
-                c = Case(fn, a, b, e, mode)
+                c = Case(fn, a, b, e, mode, rep=rep)
                 if idx < 60:
                     with cov:
-                        c.res = run_real(fn, a, b, cap)
+                        c.res = run_real(fn, a, b, cap, rep)
                 else:
-                    c.res = run_real(fn, a, b, cap)
+                    c.res = run_real(fn, a, b, cap, rep)
                 batch.append(c)
                 nontriv = len(a) >= 1 and len(b) >= 1 and len(a) + len(b) >= 3
                 ctx.case({"fn": fn, "A": a, "B": b}, nontriv, sample_every=211)
@@ -558,8 +621,8 @@ def replay(ctx, rep):
             print("PYTHONHASHSEED=%s: distance %r rows %r" % (s, vals[0][0], vals[0][1]))
         return len(ctx.violations) == before and len(set(dists)) == 1
     with Capture() as cap:
-        case = Case(fn, A_, B_, exact)
-        case.res = run_real(fn, A_, B_, cap)
+        case = Case(fn, A_, B_, exact, rep=c.get("rep", "array"))
+        case.res = run_real(fn, A_, B_, cap, case.rep)
     print("real code: %r" % ({k: (v.tolist() if hasattr(v, "tolist") else v) for k, v in case.res.items()},))
     run_cases(ctx, [case])
     print("problems:", case.problems or "none")
@@ -584,7 +647,10 @@ def replay(ctx, rep):
 
 
 MANIFEST = {
-    "text": "Proof for the checker and the extraction, validation per call for the rows: Lean theorems show (1) the certificate "
+    "text": "Proof for the checker and the extraction, validation per call for the rows (41 theorems, of which 11 are the core statements: "
+            "checkRows_sound_bn/_ws, bn_rows_certify, ws_rows_certify, empty_as_origin, bottleneck_matching_certifies, wasserstein_matching_certifies, "
+            "modelBnRowsCertify, modelWsRowsCertify, model_rows_independent_of_oracle_value/_solver_value; the rest are proof steps, cost-rule "
+            "identifications, definitional restatements and concrete instances): Lean theorems show (1) the certificate "
             "checker `checkRows` is sound for diagrams of ANY size — rows it accepts ARE a partial matching of the two "
             "(placeholder-adjusted) diagrams in which every point is in exactly one row, whose largest pairing cost is exactly the "
             "maximum of the third entries (bottleneck) and whose total cost is exactly their sum (Wasserstein), so together with "
@@ -594,16 +660,23 @@ MANIFEST = {
             "composes this with C01/C02 for the MODELS OF THE CODE themselves: for every oracle honouring OracleMax / solver honouring "
             "LsaContract and diagrams of every size, the rows `bottleneckWithMatching` / `wasserstein` return are (up to the "
             "representation of the finite third entry) exactly C06's extracted rows, pass `checkRows`, have max / sum equal to the "
-            "returned distance, are an optimal matching, and the certified value is independent of the oracle / solver; (3) the distance "
-            "component does not depend on the flag; (4) an empty side is index 0 of the one-point diagram (0,0). That the returned "
-            "distance is the specification value (minimum over all partial matchings) is C01/C02, not proved here. The rows returned "
+            "returned distance, are an optimal matching, and the certified value is independent of the oracle / solver — i.e. "
+            "Props/C06Model.lean proves the property for the C01/C02 MODELS themselves, not only for an abstract extraction loop; (3) the clause "
+            "'same distance with and without the flag': the two theorems matching_flag_irrelevant_bn/_ws are DEFINITIONAL (true by rfl: the "
+            "model's return value is built from the same distance component in both branches) and carry no weight of their own — the clause "
+            "rests on C01's matching_flag_value (bottleneckWithMatching returns bottleneck's result) for the bottleneck model and is otherwise "
+            "[T] on the real code (every case is run with and without matching=True and the two distances must be bit-identical); (4) an empty "
+            "side is index 0 of the one-point diagram (0,0). That the returned distance is the specification value (minimum over all partial "
+            "matchings) is C01/C02; C06Model composes with them for the models. The rows returned "
             "by the real code are never compared with a model's rows (any optimal matching is acceptable): every returned matching, "
             "under several hash seeds, is validated by the Lean-proved checker (translation-validation flavour for the per-call part), "
             "the distance is compared with and without matching=True, and for M+N <= 8 with the exhaustive optimum.",
     "note": "Trusted: Lean kernel + Mathlib (propext/Classical.choice/Quot.sound); the harness and driver that hand the code's rows to the "
             "checker; C01/C02 for 'reported distance = minimum'. [T]: an independent Python re-implementation of the statement's clauses, "
             "the exhaustive optimum (M+N <= 8), hash-seed runs in fresh interpreters, and float tolerances (bottleneck costs exact on dyadic "
-            "inputs, 1e-9*scale otherwise; Wasserstein costs 1e-9*scale). The extraction model is tied to the code by replaying the "
+            "inputs, 1e-9*scale otherwise; Wasserstein costs 1e-9*scale; scale = largest |coordinate|, not floored), the flag clause "
+            "(see text), and the arguments' representation (lists, tuples, float32 and integer arrays are fed to the real functions; checker and "
+            "models are dtype-free). The extraction model is tied to the code by replaying the "
             "assignment captured from the solver inside the real call.",
     "technique": "Lean-proved certificate checker run on every returned matching + theorems about the extraction loops",
 }
